@@ -281,14 +281,14 @@ func judge(o *oracle, T sema.Type, script bool, sent []string, res *rt.Result, o
 	if !vd.ok() {
 		return judgement{status: "violation", received: vd,
 			sig:    fmt.Sprintf("accepted-nonconforming|%s|param=%s", vd.Class, shape),
-			detail: fmt.Sprintf("received value %s does not conform to %s: %s", trunc(ob.x.String(), 200), T, vd.Detail)}
+			detail: fmt.Sprintf("received value %s does not conform to %s: %s", trunc(safeString(ob.x), 200), T, vd.Detail)}
 	}
 	// (c) returned values round-trip
 	if script {
 		if class, detail := roundTrip(res.Value); class != "" {
 			return judgement{status: "violation",
 				sig:    fmt.Sprintf("returned-value|%s|%s|%s", class, siteOf(detail), normMsg(detail)),
-				detail: fmt.Sprintf("returned value %s: %s", trunc(res.Value.String(), 200), trunc(detail, 300))}
+				detail: fmt.Sprintf("returned value %s: %s", trunc(safeString(res.Value), 200), trunc(detail, 300))}
 		}
 	}
 	return j
@@ -296,6 +296,19 @@ func judge(o *oracle, T sema.Type, script bool, sent []string, res *rt.Result, o
 
 // decoderFails: the JSON-CDC decoder (what the host calls) refuses the bytes.
 func decoderFails(js string) bool { return decodeArg([]byte(js)) == nil }
+
+// safeString renders a value; a malformed exported value (nil field) must not take the harness down.
+func safeString(v cadence.Value) (s string) {
+	defer func() {
+		if p := recover(); p != nil {
+			s = fmt.Sprintf("<unprintable %T: %v>", v, p)
+		}
+	}()
+	if v == nil {
+		return "<nil>"
+	}
+	return v.String()
+}
 
 func trunc(s string, n int) string {
 	if len(s) > n {
